@@ -142,7 +142,13 @@ def executeItem (srv : Srv) (ph : Val) (it : Item) : ItemOut × Option Err :=
         some (.typed reasonOperationNotSupported))                          -- ErrOperationNotSupported
     else callHandler ph resp it
 
-/-- `executeItemWithMiddleware` with no batch item middleware: `respBi` is never nil. -/
+/-- `executeItemWithMiddleware` with no batch item middleware: `respBi` is never nil.
+    Its last-resort recovery (06bba78) catches a panic raised while the outcome of the handler is
+    RENDERED (the `Error` / `Unwrap` / `String` method of the error returned or of the value panicked
+    with panics): it clears the placeholder and answers the item failed, echoing operation and id.
+    Observably that is what `.plainErr` (error returned) and `.panicOther` (value panicked with) give
+    here, so such outcomes are not constructors of their own: the harness scripts them as variants of
+    `x` / `p` and the real code must answer as this model does. -/
 def executeItemWithMiddleware (srv : Srv) (ph : Val) (it : Item) : ItemOut :=
   match executeItem srv ph it with
   | (o, none) => o
@@ -184,7 +190,10 @@ structure Out where
   ph : Val
   deriving Repr, Inhabited
 
-/-- `handleRequest` (the core handler). -/
+/-- `handleRequest` (the core handler). `ph`: the content of the holder the operation handlers reach
+    when the loop starts. Since 4b5c841 the core handler makes a batch context of its own for every
+    message it executes, so this is always `""` (`execFull` passes `0`); the world model of
+    `Placeholder` is where that is a parameter (`Impl.atCore`). -/
 def handleRequest (srv : Srv) (ph : Val) (req : Req) : Except Err Out :=
   if !srv.supports req.ver then .error (.typed reasonInvalidMessage)
   else if req.opt > 0 && req.opt == optUndo then .error (.typed reasonFeatureNotSupported)
@@ -203,7 +212,9 @@ def handleMessageError (req : Req) (e : Err) : Out :=
   let (ph, bi) := handleBatchItemError { op := 0, id := none, failed := false, reason := 0 } e
   { resp := { ver := ver, count := 1, items := [bi] }, calls := [], obs := [], ph := ph }
 
-/-- `HandleRequest`: fresh batch context (placeholder ""), core handler, message error mapping. -/
+/-- `HandleRequest` without message middleware: batch context for the middlewares, core handler
+    (which makes the batch context of the handlers: placeholder ""), message error mapping (whose
+    `Clear` hits the first of the two contexts, which no handler reaches). -/
 def execFull (srv : Srv) (req : Req) : Out :=
   match handleRequest srv 0 req with
   | .ok o => o
